@@ -267,10 +267,152 @@ def run_one(args):
     return {"id": "rand/%d" % seed, "seed": seed, "D": 1, "Dreal": D, "atoms": sizes, "steps": steps}
 
 
+def run_combine(args):
+    """MIMAS.combine_regions / intersect_regions: the documented order of construction
+    (add regions, subtract regions, add circles, subtract circles, add polygons, subtract polygons)
+    as one history whose only observable state is the returned region."""
+    seed, workdir = args
+    import healpy as hp
+    from AegeanTools.regions import Region
+    from AegeanTools import MIMAS
+    common.quiet_logging()
+    rng = random.Random(seed)
+    D = rng.choice([5, 6, 7, 8, 9])
+    ra0, dec0 = rng.uniform(0, 2 * math.pi), math.asin(rng.uniform(-0.95, 0.95))
+    files = []
+    ops = []          # (kind, pixel set at depth D)
+
+    def circle():
+        ra, dec = near(rng, ra0, dec0, pixsize(D))
+        return ra, dec, rng.uniform(1.0, 5.0) * pixsize(D)
+
+    def poly():
+        for _ in range(50):
+            ra, dec = near(rng, ra0, dec0, pixsize(D))
+            if abs(dec) > math.pi / 2 - 8 * pixsize(D):
+                continue
+            nv = rng.randint(3, 6)
+            r = rng.uniform(2, 5) * pixsize(D)
+            angs = sorted(rng.uniform(0, 2 * math.pi) for _ in range(nv))
+            if max(b - a for a, b in zip(angs, angs[1:] + [angs[0] + 2 * math.pi])) > math.pi * 0.9:
+                continue
+            return [((ra + r * math.sin(a) / math.cos(dec)) % (2 * math.pi), dec + r * math.cos(a)) for a in angs][::-1]
+        return None
+
+    def disc_pixels(c):
+        return set(int(x) for x in hp.query_disc(2 ** D, _vec(c[0], c[1]), c[2], inclusive=True, nest=True))
+
+    def poly_pixels(p):
+        return set(int(x) for x in hp.query_polygon(2 ** D, np.array([_vec(a, b) for a, b in p]), inclusive=True, nest=True))
+
+    def mimfile(k):
+        c = circle()
+        r = Region(maxdepth=D)
+        r.add_circles(c[0], c[1], c[2])
+        f = os.path.join(workdir, "comb_%d_%d_%d.mim" % (seed, os.getpid(), k))
+        r.save(f)
+        files.append(f)
+        return f, disc_pixels(c)
+
+    rec = {"id": "combine/%d" % seed, "seed": seed, "D": 1, "Dreal": D, "atoms": [], "steps": []}
+    mode = "intersect" if rng.random() < 0.25 else "combine"
+    err = ""
+    region = None
+    try:
+        if mode == "intersect":
+            fl = [mimfile(k) for k in range(rng.randint(2, 4))]
+            ops = [("union", fl[0][1])] + [("intersect", x[1]) for x in fl[1:]]
+            region = MIMAS.intersect_regions([x[0] for x in fl])
+        else:
+            cont = MIMAS.Dummy(maxdepth=D)
+            for k in range(rng.randint(0, 2)):
+                f, P = mimfile(k)
+                cont.add_region.append([f])
+                ops.append(("union", P))
+            for k in range(rng.randint(0, 2)):
+                f, P = mimfile(10 + k)
+                cont.rem_region.append([f])
+                ops.append(("without", P))
+            for kind, lst in (("union", cont.include_circles), ("without", cont.exclude_circles)):
+                for _ in range(rng.randint(0, 2)):
+                    cs = [circle() for _ in range(rng.randint(1, 2))]
+                    # MIMAS takes degrees as [ra1, ra2.., dec1, dec2.., r1, r2..]
+                    lst.append([math.degrees(c[0]) for c in cs] + [math.degrees(c[1]) for c in cs] + [math.degrees(c[2]) for c in cs])
+                    circ = np.radians(np.array(lst[-1]))
+                    ras, decs, radii = circ.reshape(3, circ.shape[0] // 3)
+                    P = set()
+                    for a, b, r in zip(ras, decs, radii):
+                        P |= disc_pixels((float(a), float(b), float(r)))
+                    ops.append((kind, P))
+            for kind, lst in (("union", cont.include_polygons), ("without", cont.exclude_polygons)):
+                for _ in range(rng.randint(0, 1)):
+                    p = poly()
+                    if p is None:
+                        continue
+                    flat = []
+                    for a, b in p:
+                        flat += [math.degrees(a), math.degrees(b)]
+                    lst.append(flat)
+                    pr = np.radians(np.array(flat)).reshape((len(flat) // 2, 2))
+                    ops.append((kind, poly_pixels([(float(a), float(b)) for a, b in pr])))
+            region = MIMAS.combine_regions(cont)
+    except Exception as e:
+        err = "%s: %s" % (type(e).__name__, e)
+    for f in files:
+        if os.path.exists(f):
+            os.remove(f)
+    if not ops:
+        ops = [("union", set())]
+    opsets = [o[1] for o in ops]
+    universe = set().union(*opsets)
+    atom_of_sig, atom, sizes = {}, {}, []
+    for p in sorted(universe):
+        sg = tuple(p in q for q in opsets)
+        if sg not in atom_of_sig:
+            atom_of_sig[sg] = len(sizes)
+            sizes.append(0)
+        atom[p] = atom_of_sig[sg]
+        sizes[atom[p]] += 1
+
+    def to_atoms(pixels):
+        cnt, outside = {}, 0
+        for p in pixels:
+            a = atom.get(p)
+            if a is None:
+                outside += 1
+            else:
+                cnt[a] = cnt.get(a, 0) + 1
+        return sorted(cnt), bool(outside == 0 and all(cnt[a] == sizes[a] for a in cnt))
+
+    rec["atoms"] = sizes
+    for k, (kind, P) in enumerate(ops):
+        st = {"op": kind, "samedepth": True, "normalising": True, "atoms": to_atoms(P)[0], "obs": {"skip": True}}
+        if k == len(ops) - 1:
+            if err or region is None:
+                st["obs"] = {"error": err or "no region returned", "ret": {"kind": "none"}}
+            else:
+                rng2 = random.Random(seed + 3)
+                probes = []
+                for _ in range(8):
+                    ra, dec = near(rng2, ra0, dec0, pixsize(D))
+                    probes.append(int(hp.ang2pix(2 ** D, math.pi / 2 - dec, ra, nest=True)))
+                obs = region_lib.observe(region, D, probes)
+                o2 = {"error": obs["error"], "integral": obs["integral"], "pd": obs["pd"], "area_milli": obs["area_milli"],
+                      "ret": {"kind": "none"}}
+                o2["dem_atoms"], o2["exact"] = to_atoms(obs["dem"])
+                o2["within"] = [[atom.get(q, -1), b] for q, b in obs["within"]]
+                st["obs"] = o2
+        rec["steps"].append(st)
+    rec["mode"] = mode
+    return rec
+
+
 def run(ctx, n, validate, seeds=None):
     seeds = seeds if seeds is not None else [ctx.seed * 100003 + i for i in range(n)]
     with mp.Pool(16) as pool:
         recs = pool.map(run_one, [(s, ctx.workdir) for s in seeds], chunksize=4)
+        if len(seeds) > 1:      # MIMAS.combine_regions / intersect_regions as whole-call histories
+            recs += pool.map(run_combine, [(s + 77, ctx.workdir) for s in seeds[:max(10, len(seeds) // 3)]], chunksize=4)
     rejected = []
     for i, chunk in enumerate(common.chunks(recs, 500)):
         rejected += validate(ctx, chunk, 1, "atom_trace_%d" % i, module="Region_AtomTrace",
